@@ -77,6 +77,41 @@ def build_files(chk, wd, n_gen, n_corpus):
         text = ('msgid ""\nmsgstr ""\n"Project-Id-Version: p 1\\n"\n"Content-Type: text/plain; charset=UTF-8\\n"\n"Plural-Forms: %s\\n"\n\n'
                 '#, c-format\nmsgid "%%d file"\nmsgid_plural "%%d files"\nmsgstr[0] "%%d a"\nmsgstr[1] "b"\n' % pf)
         add(f'loc{i}/{lang}/LC_MESSAGES/app.po', text, 'plural')
+    # NEAR-TWIN families: files that differ in exactly ONE dimension (language modifier, territory, charset, plural forms, template or
+    # not, header flag, one escaped byte): whatever a cache or registry is keyed on, two members agree on the key and differ in the answer
+    def twin(lang='sr', charset='ISO-8859-2', pf='nplurals=3; plural=n%10==1 && n%100!=11 ? 0 : n%10>=2 && n%10<=4 && (n%100<10 || n%100>=20) ? 1 : 2;',
+             fuzzy=False, body='msgid "one"\nmsgstr "jedan \\251"\n\n#, c-format\nmsgid "%d file"\nmsgid_plural "%d files"\nmsgstr[0] "%d a"\nmsgstr[1] "%d b"\nmsgstr[2] "%d c"\n'):
+        return (('#, fuzzy\n' if fuzzy else '') + 'msgid ""\nmsgstr ""\n"Project-Id-Version: twin 1\\n"\n"Report-Msgid-Bugs-To: t@example.org\\n"\n'
+                '"POT-Creation-Date: 2012-11-01 14:42+0100\\n"\n"PO-Revision-Date: 2012-11-01 14:42+0100\\n"\n"Last-Translator: T <t@example.org>\\n"\n'
+                '"Language-Team: T <tt@example.org>\\n"\n' + ('"Language: %s\\n"\n' % lang if lang else '') +
+                '"MIME-Version: 1.0\\n"\n"Content-Type: text/plain; charset=%s\\n"\n"Content-Transfer-Encoding: 8bit\\n"\n' % charset +
+                ('"Plural-Forms: %s\\n"\n' % pf if pf else '') + '\n' + body)
+    families = {
+        'modifier': [twin(lang=l) for l in ('sr', 'sr@latin', 'sr@ijekavianlatin', 'sr_RS', 'sr_RS@latin', 'sr')],
+        'modifier2': [twin(lang=l, charset='ISO-8859-1', pf='nplurals=2; plural=n != 1;') for l in ('en', 'en@quot', 'en@boldquot', 'en_GB', 'en@shaw')],
+        'modifier3': [twin(lang=l, charset='KOI8-R', pf='nplurals=1; plural=0;') for l in ('uz', 'uz@cyrillic', 'tt', 'tt@iqtelif')],
+        'charset': [twin(lang='sr@latin', charset=c) for c in ('ISO-8859-2', 'ISO-8859-5', 'UTF-8', 'ISO-8859-1', 'CP1250', 'ISO-8859-16')],
+        'plural': [twin(pf=f) for f in ('nplurals=3; plural=n%10==1 && n%100!=11 ? 0 : n%10>=2 && n%10<=4 && (n%100<10 || n%100>=20) ? 1 : 2;', 'nplurals=3; plural=n%3;',
+                                        'nplurals=2; plural=n != 1;', 'nplurals=3; plural=n%10==1 && n%100!=11 ? 0 : n%10>=2 && n%10<=4 && (n%100<10 || n%100>=20) ? 1 : 2', None)],
+        'fuzzy': [twin(fuzzy=False), twin(fuzzy=True)],
+        'escape': [twin(body='msgid "a \\xa9 b"\nmsgstr "c \\xa9 d\\n"\n', charset=c) for c in ('ISO-8859-2', 'ISO-8859-5', 'ISO-8859-1', 'KOI8-R')],
+    }
+    for fam, members in families.items():
+        for i, text in enumerate(members):
+            add(f'twin/{fam}/{i}/app.po', text.encode('ascii'), 'twin:' + fam)
+    # the same bytes as PO, as POT (template) and as MO (other parser): twins in the file-type dimension
+    base = twin(lang='sr@latin', charset='UTF-8').encode('ascii')
+    add('twin/type/a/x.po', base, 'twin:type')
+    add('twin/type/a/x.pot', base, 'twin:type')
+    try:
+        CAT.compile_mo(os.path.join(wd.path, 'twin/type/a/x.po'), os.path.join(wd.path, 'twin/type/a/x.mo'))
+        files.append(('twin/type/a/x.mo', 'twin:type'))
+    except Exception:
+        pass
+    # files that are not gettext files (unknown-file-type), and a Debian package for --unpack-deb (C17 owns check_deb; here it is one more file)
+    add('misc/readme.txt', 'hello\n', 'other')
+    add('misc/data.bin', b'\x00\x01\x02', 'other')
+    add('misc/noext', 'msgid ""\nmsgstr ""\n', 'other')
     gen_paths = []
     for i in range(n_gen):
         text, ext = CAT.gen_po(rng)
@@ -102,6 +137,21 @@ def build_files(chk, wd, n_gen, n_corpus):
         big = ''.join(CAT.gen_po(rng)[0] if k == 0 else '\nmsgid "m%d %%s"\nmsgstr "t%d"\n' % (k, k) for k in range(n))
         add(name, big, 'big')
     return files
+
+def build_deb(wd):
+    """a binary package with one PO file that has something to report and two files that are not gettext files; None without dpkg-deb"""
+    import shutil
+    if not shutil.which('dpkg-deb'):
+        return None
+    root = os.path.join(wd.path, 'debroot')
+    wd.write('debroot/DEBIAN/control', 'Package: gizmo\nVersion: 1\nArchitecture: all\nMaintainer: T <t@example.org>\nDescription: test\n')
+    wd.write('debroot/usr/share/locale/de/LC_MESSAGES/gizmo.po', 'msgid ""\nmsgstr ""\n"Content-Type: text/plain; charset=UTF-8\\n"\n\n#, c-format\nmsgid "%d files"\nmsgstr "%s Dateien"\n')
+    wd.write('debroot/usr/share/doc/gizmo/README', 'not a catalogue\n')
+    try:
+        p = subprocess.run(['dpkg-deb', '--root-owner-group', '-b', root, os.path.join(wd.path, 'misc', 'gizmo.deb')], capture_output=True, timeout=60)
+    except Exception:
+        return None
+    return 'misc/gizmo.deb' if p.returncode == 0 else None
 
 def interleave(files, rng):
     """round-robin over the classes: neighbours differ in charset / format / file type"""
@@ -213,7 +263,12 @@ def main():
         if pins_broken:
             seeds = [str(s) for s in range(1, 17)]
         seed_files = [f for f in stable if cls[f] != 'big']
-        jobs = [(f, s) for f in seed_files for s in seeds]
+        def seeds_for(f):
+            # quick tier: every file under two more seeds, the files written to have several elements in every printed set under all of them
+            if chk.thorough or pins_broken or cls[f] in ('flags', 'xml'):
+                return seeds
+            return rng.sample(seeds, 2)
+        jobs = [(f, s) for f in seed_files for s in seeds_for(f)]
         outs = E.parallel(lambda js: E.run_cli([js[0]], wd.path, hashseed=js[1]), jobs, workers=WORKERS)
         chk.evaluations += len(jobs)
         for (f, s), r in zip(jobs, outs):
@@ -231,6 +286,15 @@ def main():
             lists.append(uneven[k:] + uneven[:k])
         css = [f for f in stable if cls[f].startswith('cs:')]
         lists.append(css + css[::-1])                    # every charset before and after every other one, each path twice
+        fams = {}
+        for f in stable:
+            if cls[f].startswith('twin:'):
+                fams.setdefault(cls[f], []).append(f)
+        twin_lists = []
+        for fam, members in sorted(fams.items()):
+            twin_lists += [members, members[::-1]]       # each member after its predecessor and after its successor
+        all_twins = [f for fam in sorted(fams) for f in fams[fam]]
+        twin_lists.append(rng.sample(all_twins, len(all_twins)))
         for _ in range(6 if chk.thorough else 2):
             lists.append(rng.sample(stable, k=min(len(stable), rng.randint(2, 9))))
         if pins_broken:
@@ -242,17 +306,35 @@ def main():
         for fl in lists:
             for j in (['1', '2', '5'] if chk.thorough else (['1', '3'] if len(fl) > 12 else [rng.choice(['1', '2', '3'])])):
                 runs.append((fl, j, rng.choice(['0', '1', '2']), []))
+        for fl in twin_lists:
+            runs.append((fl, '1', rng.choice(['0', '1', '2']), []))      # one process: the members share every cache
+        if chk.thorough or pins_broken:
+            for fam, members in sorted(fams.items()):
+                for a in members:
+                    for b in members:
+                        if a != b:
+                            runs.append(([a, b], '1', '0', []))
         # option sets (configurations): the same options object is shared by all files of an invocation
-        optsets = [['-l', 'de'], ['-l', 'pt_BR'], ['--unpack-deb']] if chk.thorough else [['-l', 'de'], ['--unpack-deb']]
-        opt_files = [f for f in interleave([(f, cls[f]) for f in stable if cls[f] != 'big'], rng)][:(30 if chk.thorough else 12)]
+        deb = build_deb(wd)
+        optsets = [['-l', 'de'], ['-l', 'sr@latin'], ['--unpack-deb'], ['--file-type', 'po'], ['--unpack-deb', '-l', 'pt_BR']] if chk.thorough else \
+                  [['-l', 'sr@latin'], ['--unpack-deb'], ['--file-type', 'po']]
+        others = [f for f in stable if cls[f] == 'other']
+        opt_base = others + [f for f in stable if cls[f] == 'twin:modifier'][:3] + [f for f in stable if cls[f] == 'twin:type'] + \
+                   [f for f in interleave([(f, cls[f]) for f in stable if cls[f] not in ('big', 'other') and not cls[f].startswith('twin:')], rng)][:(24 if chk.thorough else 6)]
         opt_ref = {}
         for o in optsets:
-            rs = E.parallel(lambda f: E.run_cli(o + [f], wd.path, hashseed='0'), opt_files, workers=WORKERS)
-            chk.evaluations += len(opt_files)
-            opt_ref[tuple(o)] = dict(zip(opt_files, rs))
+            opt_files = list(opt_base)
+            if deb and '--unpack-deb' in o:
+                # the package first, in the middle and last: files that are not gettext files come after it and before it
+                opt_files = [deb] + opt_files[:len(opt_files) // 2] + [deb] + opt_files[len(opt_files) // 2:]
+            uniq = list(dict.fromkeys(opt_files))
+            rs = E.parallel(lambda f: E.run_cli(o + [f], wd.path, hashseed='0'), uniq, workers=WORKERS)
+            chk.evaluations += len(uniq)
+            opt_ref[tuple(o)] = dict(zip(uniq, rs))
             ok_files = [f for f in opt_files if opt_ref[tuple(o)][f]['rc'] == 0 and not opt_ref[tuple(o)][f]['stderr']]
             runs.append((ok_files, '1', '1', o))
-            runs.append((ok_files[::-1], '2', '0', o))
+            runs.append((ok_files[::-1], '1', '0', o))
+            runs.append((ok_files, '2', '0', o))
         outs = E.parallel(lambda r: E.run_cli(r[3] + ['-j', r[1]] + r[0], wd.path, hashseed=r[2], timeout=600), runs, workers=WORKERS)
         chk.evaluations += len(runs)
         for (fl, j, s, o), r in zip(runs, outs):
@@ -282,7 +364,7 @@ def main():
                               'suspect_sites': suspects[:8]})
         # 4. histories inside ONE process: the real main() with check_all called several times — the same relative paths with OTHER
         #    contents (second directory), reversed, twice in one list, then through the pool
-        hand = [f for f in stable if cls[f] in ('flags', 'xml')] + [f for f in stable if cls[f].startswith('cs:')][:4] + [f for f in stable if cls[f] == 'plural'] + \
+        hand = [f for f in stable if cls[f] in ('flags', 'xml', 'twin:modifier', 'twin:type', 'twin:plural')] + [f for f in stable if cls[f].startswith('cs:')][:4] + [f for f in stable if cls[f] == 'plural'] + \
                [f for f in stable if cls[f] == 'mo'][:3] + [f for f in stable if cls[f] == 'pot'][:2]
         rest = [f for f in interleave([(f, cls[f]) for f in stable if cls[f] not in ('big',)], rng) if f not in hand][:(30 if chk.thorough else 8)]
         sub = interleave([(f, cls[f]) for f in hand + rest], rng)
@@ -333,7 +415,7 @@ def main():
         chk.coverage['determinism'] = {'files': len(files), 'by_class': {c: sum(1 for _f, k in classed if k == c) for c in sorted(set(cls.values()))},
                                        'files_with_output': len(nontrivial), 'excluded_crashing_files': bad_ref[:10],
                                        'single_file_runs': len(jobs), 'hash_seeds': seeds, 'multi_file_runs': len(runs), 'job_counts': sorted({r[1] for r in runs}),
-                                       'option_sets': optsets, 'in_process_phases': [(p['table'], len(p['files']), p['jobs']) for p in phases],
+                                       'option_sets': optsets, 'debian_package_among_the_files': bool(deb), 'twin_families': {k: len(v) for k, v in sorted(fams.items())}, 'in_process_phases': [(p['table'], len(p['files']), p['jobs']) for p in phases],
                                        'list_lengths': sorted({len(r[0]) for r in runs})}
         if scan_sites:
             def cov(sites, pred=lambda s: True):
